@@ -62,6 +62,9 @@ func (c *Config) validate() error {
 	if c.MemtableByteThreshold <= 0 {
 		c.MemtableByteThreshold = DefaultConfig.MemtableByteThreshold
 	}
+	if c.ImmutableBuffer < 0 {
+		c.ImmutableBuffer = DefaultConfig.ImmutableBuffer
+	}
 	if c.DataBlockByteThreshold <= 0 {
 		c.DataBlockByteThreshold = DefaultConfig.DataBlockByteThreshold
 	}
